@@ -13,7 +13,7 @@ use serde_json::json;
 pub const SPEC: PropSpec = PropSpec {
 	id: "C08",
 	level: "exploration",
-	rule: "per case: schema AST (incl. equal short names in different namespaces, recursion, sharing, logical types; one in six with field names / symbols containing spaces, non-ASCII letters, combining marks) -> 3 random JSON spellings + the builder API; for each: canonical form text (hook H1) == reference canonical form of the AST, SchemaMut::canonical_form_rabin_fingerprint == Schema::rabin_fingerprint == little-endian bitwise CRC-64-AVRO of it, identical across spellings; one canonical-form-changing edit (rename, swap fields, change symbol/size, reorder union, edit inside the second of two same-short-name types) must change the fingerprint, also when applied in place through nodes_mut() to an object whose fingerprint was already queried 0-2 times (then re-queried and frozen; a clone taken before the edit keeps the old one). once per run: the table-driven step (hook H2) against the bitwise definition on the full 2^16 x 2^8 subspace, the 64+8 unit vectors, GF(2)-linearity of the 256-entry table over all 256x256 index pairs, 2x10^6 random (state, byte) pairs and the affine identity on random triples. distinct by hash(canonical form)",
+	rule: "per case: schema AST (incl. equal short names in different namespaces, recursion, sharing, logical types; one in six with field names / symbols containing spaces, non-ASCII letters, combining marks, or 60-200 bytes long) -> 3 random JSON spellings + the builder API; for each: canonical form text (hook H1) == reference canonical form of the AST, SchemaMut::canonical_form_rabin_fingerprint == Schema::rabin_fingerprint == little-endian bitwise CRC-64-AVRO of it, identical across spellings; one canonical-form-changing edit (rename, swap fields, change symbol/size, reorder union, edit inside the second of two same-short-name types) must change the fingerprint, also when applied in place through nodes_mut() to an object whose fingerprint was already queried 0-2 times (then re-queried and frozen; a clone taken before the edit keeps the old one). once per run: the table-driven step (hook H2) against the bitwise definition on the full 2^16 x 2^8 subspace, the 64+8 unit vectors, GF(2)-linearity of the 256-entry table over all 256x256 index pairs, 2x10^6 random (state, byte) pairs and the affine identity on random triples. distinct by hash(canonical form)",
 	assumptions: &[
 		"the step is (s >> 8) ^ T[(s ^ b) & 0xFF]; agreement on a GF(2) basis plus table linearity extends to all 2^64 x 256 pairs by an affine-map argument, not by observation (exhaustive: false)",
 		"a CRC collision between distinct canonical forms is counted as inconclusive",
@@ -150,6 +150,10 @@ pub fn run_case(ctx: &mut Ctx, case_seed: u64) {
 						if rng.chance(1, 3) {
 							f.0 = format!("{}{}{k}", f.0, rng.pick(&[" x", "é", "e\u{301}", "名", "ß "]));
 							unusual += 1;
+						} else if rng.chance(1, 6) {
+							// 60..200 bytes: longer than any block a hasher might buffer
+							f.0 = format!("{}_{}{k}", f.0, "long_field_name_".repeat(4 + rng.below(9)));
+							unusual += 1;
 						}
 					}
 				}
@@ -157,6 +161,9 @@ pub fn run_case(ctx: &mut Ctx, case_seed: u64) {
 					for (k, sy) in symbols.iter_mut().enumerate() {
 						if rng.chance(1, 3) {
 							*sy = format!("{sy}{}{k}", rng.pick(&[" y", "ü", "o\u{308}", "語"]));
+							unusual += 1;
+						} else if rng.chance(1, 6) {
+							*sy = format!("{sy}_{}{k}", "LONG_SYMBOL_".repeat(5 + rng.below(12)));
 							unusual += 1;
 						}
 					}
